@@ -238,3 +238,50 @@ func VX_C15_sql() {
 	_ = ix
 	vx.Reach("end")
 }
+
+// VX_C19_sequence: two ToSQL calls with different dialects in one process.
+func VX_C19_sequence() {
+	vxsql.Reset()
+	names, cols, ix, f := c19frame([]string{"int", "string"}, 1)
+	_, _ = cols, ix
+	order := []string{vx.ParamStr("d1"), vx.ParamStr("d2"), vx.ParamStr("d1")}
+	for k, d := range order {
+		opts, esc, incr := c19dialect(d)
+		opts = append(opts, qsql.Table("t"))
+		err := f.ToSQL(vxsql.Tx(), opts...)
+		vx.Check(err == nil, "ToSQL: no error")
+		log := vxsql.ExecLog()
+		vx.Check(len(log) == k+1, "one INSERT per row and call")
+		if len(log) == k+1 {
+			q, _ := log[k][0].(string)
+			vx.Check(q == c19insert("t", names, esc, incr), "statement text follows the dialect of this call")
+		}
+	}
+	vx.Reach("end")
+}
+
+// VX_C19_precision: float precision is applied to values, NULLs stay NaN.
+func VX_C19_precision() {
+	vxsql.Reset()
+	lead := vx.Bool()
+	rows := [][]interface{}{{1.234}, {nil}, {2.5}, {nil}}
+	if lead {
+		rows = [][]interface{}{{nil}, {1.234}, {nil}, {2.5}}
+	}
+	vxsql.SetResult([]string{"f"}, rows)
+	g := ReadSQL(vxsql.Tx(), qsql.Query("select"), qsql.Precision(2))
+	vx.Check(g.Err == nil && g.Len() == 4, "ReadSQL with Precision: no error")
+	if g.Err != nil || g.Len() != 4 {
+		return
+	}
+	v := g.MustFloatView("f")
+	for r, row := range rows {
+		x := v.ItemAt(r)
+		if row[0] == nil {
+			vx.Check(x != x, "NULL stays NaN when a precision is configured")
+		} else {
+			vx.Check(x == math.Round(row[0].(float64)*100)/100, "value rounded to the configured precision")
+		}
+	}
+	vx.Reach("end")
+}
